@@ -8,17 +8,19 @@ pub mod h7 {
    use crate::common::*;
    ascent! {
       pub struct Prog;
-      relation r0(i64);
+      relation r0(i64, i64);
       relation r1(i64, i64);
-      relation r2(i64);
+      relation r2(i64, i64, i64);
       relation r3(i64, i64, i64);
-      relation r4(i64, i64);
-      r2(v0) <-- r1(v0, v1), r1(v1, v1);
-      r3(v0, v1, v9) <-- let v9 = 3, r4(v0, v1), r4(v1, v9);
-      r4(2, 0) <-- let v0 = 4, r1(v1, v2) if ((*v1) < 5), if (v0 != 4), r1(v3, v4) if ((*v1) != 1) let v5 = ((*v1) + 1), r2(v6);
-      r4(((*v1) + 1), 3) <-- if let Some(v0) = None::<i64>, r1(3, v1) if (v0 <= 1), if ((*v1) < 6);
-      r2(((*v1) + 1)) <-- if let Some(v0) = Some(3), r4(v0, 3), r1(v0, v1), if ((*v1) < 6);
-      r4(v0, ((*v0) + 1)) <-- r1(v0, 1), if ((*v0) < 6);
+      relation r4(i64);
+      r2(v1, 3, v1) <-- r1(2, 0), r2(v0, v1, 3);
+      r3(v1, v4, v1) <-- r2(0, v0, v1), r3(v2, v3, v4), if ((*v2) != 4);
+      r4(v0) <-- r3(v0, v1, v2), if ((*v2) < 1);
+      r4(v0) <-- r1(v0, v1) if ((*v0) < 2), r0(v1, v2) if ((*v2) != (*v1));
+      r4(3);
+      r4(1);
+      r4(v3) <-- let v0 = 4, r1(v0, v0) if (v0 != 4) let v1 = (v0 + 1), r2(v2, 0, v3) if ((*v3) < 6), if (v0 < 3);
+      r2(v2, v1, v0) <-- r0(v0, v1), r2(1, v1, ((*v1) + 0)), for v2 in 1..1;
    }
    pub struct Inst { p: Prog, pool: Option<ascent::rayon::ThreadPool> }
    pub fn make(pool: Option<usize>) -> Box<dyn Driver> {
@@ -29,11 +31,11 @@ pub mod h7 {
    impl Driver for Inst {
       fn load(&mut self, rel: usize, rows: &[Sexp], append: bool) -> Option<()> {
          match rel {
-         0 => { let v: Vec<(i64,)> = parse_rows(rows)?; if append { self.p.r0.extend(v) } else { self.p.r0 = v } },
+         0 => { let v: Vec<(i64,i64,)> = parse_rows(rows)?; if append { self.p.r0.extend(v) } else { self.p.r0 = v } },
          1 => { let v: Vec<(i64,i64,)> = parse_rows(rows)?; if append { self.p.r1.extend(v) } else { self.p.r1 = v } },
-         2 => { let v: Vec<(i64,)> = parse_rows(rows)?; if append { self.p.r2.extend(v) } else { self.p.r2 = v } },
+         2 => { let v: Vec<(i64,i64,i64,)> = parse_rows(rows)?; if append { self.p.r2.extend(v) } else { self.p.r2 = v } },
          3 => { let v: Vec<(i64,i64,i64,)> = parse_rows(rows)?; if append { self.p.r3.extend(v) } else { self.p.r3 = v } },
-         4 => { let v: Vec<(i64,i64,)> = parse_rows(rows)?; if append { self.p.r4.extend(v) } else { self.p.r4 = v } },
+         4 => { let v: Vec<(i64,)> = parse_rows(rows)?; if append { self.p.r4.extend(v) } else { self.p.r4 = v } },
             _ => return None,
          }
          Some(())
@@ -55,18 +57,13 @@ pub mod hp1 {
    ascent_par! {
       pub struct Prog;
       relation r0(i64, i64);
-      relation r1(i64);
-      relation r2(i64);
-      relation r3(i64);
-      r2(v0) <-- if let Some(v0) = Some(2), r1(0), if let Some(v1) = Some(v0);
-      r3(2) <-- r2(v0), r0(v0, v0);
-      r2(((*v0) + 1)) <-- r3(v0), if ((*v0) < 6);
-      r2(v0) <-- let v9 = 3, r0(v0, v1), r0(v1, v9);
-      r3(v0) <-- let v9 = 2, r0(v0, v1), r0(v1, v9);
-      r3(3);
-      r2(v0) <-- r1(v0), for v1 in 2..3;
-      r2(v0) <-- let v0 = 2, r2((v0 + 1));
-      r3(v1) <-- if let Some(v0) = Some(0), r0(v0, v0), r0(v0, v0), for v1 in 2..3;
+      relation r1(i64, i64);
+      relation r2(i64, i64);
+      relation r3(i64, i64);
+      r2(v0, v1) <-- for v9 in 0..2, r2(v0, v1), r0(v9, v1);
+      r2(v0, ((*v0) + 1)) <-- r2(v0, v1), if ((*v0) < 6);
+      r2(v0, v1) <-- r2(v0, v1);
+      r2(v2, v0) <-- r1(0, v0) if ((*v0) < 1), r1(v0, v1), r2(v0, v2) if ((*v0) != 3);
    }
    pub struct Inst { p: Prog, pool: Option<ascent::rayon::ThreadPool> }
    pub fn make(pool: Option<usize>) -> Box<dyn Driver> {
@@ -78,9 +75,9 @@ pub mod hp1 {
       fn load(&mut self, rel: usize, rows: &[Sexp], append: bool) -> Option<()> {
          match rel {
          0 => { let v: Vec<(i64,i64,)> = parse_rows(rows)?; if !append { self.p.r0 = Default::default(); } for x in v { self.p.r0.push(x); } },
-         1 => { let v: Vec<(i64,)> = parse_rows(rows)?; if !append { self.p.r1 = Default::default(); } for x in v { self.p.r1.push(x); } },
-         2 => { let v: Vec<(i64,)> = parse_rows(rows)?; if !append { self.p.r2 = Default::default(); } for x in v { self.p.r2.push(x); } },
-         3 => { let v: Vec<(i64,)> = parse_rows(rows)?; if !append { self.p.r3 = Default::default(); } for x in v { self.p.r3.push(x); } },
+         1 => { let v: Vec<(i64,i64,)> = parse_rows(rows)?; if !append { self.p.r1 = Default::default(); } for x in v { self.p.r1.push(x); } },
+         2 => { let v: Vec<(i64,i64,)> = parse_rows(rows)?; if !append { self.p.r2 = Default::default(); } for x in v { self.p.r2.push(x); } },
+         3 => { let v: Vec<(i64,i64,)> = parse_rows(rows)?; if !append { self.p.r3 = Default::default(); } for x in v { self.p.r3.push(x); } },
             _ => return None,
          }
          Some(())
@@ -101,25 +98,29 @@ pub mod ha0 {
    use crate::common::*;
    ascent! {
       pub struct Prog;
-      relation r0(i64, i64);
+      relation r0(i64, i64, i64);
       relation r1(i64);
       relation r2(i64);
       relation r3(i64, i64);
-      relation r4(i64);
-      relation r5(i64, i64);
-      relation r6(i64);
-      relation r7(i64);
-      r1(v0) <-- for v0 in 2..2, r0((v0 + 0), 2);
-      r2(v1) <-- r1(v0), r2(v1);
-      r3(3, 1) <-- r2(1);
-      r4(v0) <-- for v0 in 2..3, r3(v0, v0);
-      r5(v1, (v0 + 1)) <-- if let Some(v0) = Some(0), r4((v0 + 1)), if let Some(v1) = Some(v0), r5((v0 + 0), v1), let v2 = 0, if (v0 < 6);
-      r5(v0, v1) <-- r0(v0, v1) if ((*v0) < 2), r5(v1, v2) if ((*v2) != (*v1));
-      r5(v1, v0) <-- r3(v0, 2), for v1 in [2, 2, 2];
-      r1(0);
-      r3(v0, v1) <-- for v0 in [2], r3(v0, v1);
-      r6(v0) <-- r2(v0), agg v21 = max(v20) in r0(v20, (*v0));
-      r7(v32) <-- r4(v0), r0(v31, v32), agg v21 = min(v20) in r3(v20, _);
+      relation r4(i64, i64);
+      relation r5(i64, i64, i64);
+      relation r6(i64, i64);
+      relation r7(i64, i64);
+      relation r8(i64);
+      relation r9(i64);
+      r2(v0) <-- r1(v0), let v1 = (*v0);
+      r3(v0, v0) <-- r2(v0) if ((*v0) <= 3), r5(v0, ((*v0) + 1), v0);
+      r2(v0) <-- r3(v0, 2);
+      r5(v0, v8, v9) <-- if let Some(v9) = Some(1), r3(v0, v1), r3(v1, v9) let v8 = ((*v0) + 1);
+      r2(v0) <-- r3(v0, v1), r4(v1, v2), r3(v2, v3);
+      r2(v1) <-- if let Some(v0) = Some(0), r0(v0, v0, v0), r5(v1, v0, (v0 + 1)), if ((*v1) < 4);
+      r4(v0, v0) <-- if let Some(v0) = Some(1), if (v0 <= 6);
+      r3(v0, 2) <-- r4(v0, v1), r1(v0);
+      r3(2, 3);
+      r6(v0, v21) <-- r2(v0), agg v21 = min(v20) in r4(1, v20);
+      r7(v33, 1) <-- r1(v0), r5(v31, v0, v32), r4(v33, v34), agg () = not() in r6(_, _);
+      r8(v0) <-- r5(v0, v1, v2), r2(v2), agg v21 = count() in r1(_);
+      r9(v0) <-- r2(v0), agg v21 = max(v20) in r0((*v0), (*v0), v20);
    }
    pub struct Inst { p: Prog, pool: Option<ascent::rayon::ThreadPool> }
    pub fn make(pool: Option<usize>) -> Box<dyn Driver> {
@@ -130,14 +131,16 @@ pub mod ha0 {
    impl Driver for Inst {
       fn load(&mut self, rel: usize, rows: &[Sexp], append: bool) -> Option<()> {
          match rel {
-         0 => { let v: Vec<(i64,i64,)> = parse_rows(rows)?; if append { self.p.r0.extend(v) } else { self.p.r0 = v } },
+         0 => { let v: Vec<(i64,i64,i64,)> = parse_rows(rows)?; if append { self.p.r0.extend(v) } else { self.p.r0 = v } },
          1 => { let v: Vec<(i64,)> = parse_rows(rows)?; if append { self.p.r1.extend(v) } else { self.p.r1 = v } },
          2 => { let v: Vec<(i64,)> = parse_rows(rows)?; if append { self.p.r2.extend(v) } else { self.p.r2 = v } },
          3 => { let v: Vec<(i64,i64,)> = parse_rows(rows)?; if append { self.p.r3.extend(v) } else { self.p.r3 = v } },
-         4 => { let v: Vec<(i64,)> = parse_rows(rows)?; if append { self.p.r4.extend(v) } else { self.p.r4 = v } },
-         5 => { let v: Vec<(i64,i64,)> = parse_rows(rows)?; if append { self.p.r5.extend(v) } else { self.p.r5 = v } },
-         6 => { let v: Vec<(i64,)> = parse_rows(rows)?; if append { self.p.r6.extend(v) } else { self.p.r6 = v } },
-         7 => { let v: Vec<(i64,)> = parse_rows(rows)?; if append { self.p.r7.extend(v) } else { self.p.r7 = v } },
+         4 => { let v: Vec<(i64,i64,)> = parse_rows(rows)?; if append { self.p.r4.extend(v) } else { self.p.r4 = v } },
+         5 => { let v: Vec<(i64,i64,i64,)> = parse_rows(rows)?; if append { self.p.r5.extend(v) } else { self.p.r5 = v } },
+         6 => { let v: Vec<(i64,i64,)> = parse_rows(rows)?; if append { self.p.r6.extend(v) } else { self.p.r6 = v } },
+         7 => { let v: Vec<(i64,i64,)> = parse_rows(rows)?; if append { self.p.r7.extend(v) } else { self.p.r7 = v } },
+         8 => { let v: Vec<(i64,)> = parse_rows(rows)?; if append { self.p.r8.extend(v) } else { self.p.r8 = v } },
+         9 => { let v: Vec<(i64,)> = parse_rows(rows)?; if append { self.p.r9.extend(v) } else { self.p.r9 = v } },
             _ => return None,
          }
          Some(())
@@ -145,7 +148,7 @@ pub mod ha0 {
       fn run(&mut self) { match &self.pool { Some(pl) => { let p = &mut self.p; pl.install(|| p.run()) }, None => self.p.run() } }
       fn run_here(&mut self) { self.p.run() }
       fn run_timeout(&mut self, k: usize) -> Option<bool> { let _ = k; None }
-      fn dump(&self) -> String { vec![dump_rel(0, self.p.r0.iter().map(Row::render).collect()), dump_rel(1, self.p.r1.iter().map(Row::render).collect()), dump_rel(2, self.p.r2.iter().map(Row::render).collect()), dump_rel(3, self.p.r3.iter().map(Row::render).collect()), dump_rel(4, self.p.r4.iter().map(Row::render).collect()), dump_rel(5, self.p.r5.iter().map(Row::render).collect()), dump_rel(6, self.p.r6.iter().map(Row::render).collect()), dump_rel(7, self.p.r7.iter().map(Row::render).collect())].join(" | ") }
+      fn dump(&self) -> String { vec![dump_rel(0, self.p.r0.iter().map(Row::render).collect()), dump_rel(1, self.p.r1.iter().map(Row::render).collect()), dump_rel(2, self.p.r2.iter().map(Row::render).collect()), dump_rel(3, self.p.r3.iter().map(Row::render).collect()), dump_rel(4, self.p.r4.iter().map(Row::render).collect()), dump_rel(5, self.p.r5.iter().map(Row::render).collect()), dump_rel(6, self.p.r6.iter().map(Row::render).collect()), dump_rel(7, self.p.r7.iter().map(Row::render).collect()), dump_rel(8, self.p.r8.iter().map(Row::render).collect()), dump_rel(9, self.p.r9.iter().map(Row::render).collect())].join(" | ") }
       fn iters(&self) -> String { format!("iters {}", self.p.scc_iters.iter().map(|x| x.to_string()).collect::<Vec<_>>().join(" ")) }
    }
 }
